@@ -136,7 +136,7 @@ def key_n(t, j, defs):
     if k == "enum":
         return enum8((j * 65537 + 0x7ffffffa) % (1 << 32))
     if k == "string":
-        return list(("k%d" % j).encode()) if j else []
+        return list(("k%d" % ((j * 7919 + 13) % 10007)).encode()) if j else []
     if k == "struct":   # pointer struct key
         v = base_value({"k": "struct", "ptr": False, "s": t["s"]}, defs, 1, salt=j)
         return {"p": 1, "v": v}
@@ -219,10 +219,64 @@ def interesting(t, defs, req, sizes=CONTAINER_SIZES, strlens=STRLENS):
         return [{"nil": True, "b": []}] + [{"nil": False, "b": strbytes(n, n + 1)} for n in strlens]
     if k in ("list", "set", "map"):
         nilv = {"nil": True, "items": []} if k != "map" else {"nil": True, "ents": []}
-        return [nilv] + [sized_container(t, n, defs, n) for n in sizes]
+        out = [nilv] + [sized_container(t, n, defs, n) for n in sizes]
+        # containers of minimal (zero) elements: the smallest wire size per element
+        if k == "map":
+            out.append({"nil": False, "ents": [[key_n(t["kt"], j, defs), zero_elem(t["vt"], defs)]
+                                               for j in range(min(3, key_capacity(t["kt"])))]})
+        else:
+            out.append({"nil": False, "items": [zero_elem(t["e"], defs) for _ in range(3)]})
+        # pointer-struct elements / values that are nil (written as an empty struct)
+        et = t["e"] if k != "map" else t["vt"]
+        if et.get("ptr") and et["k"] == "struct":
+            c = sized_container(t, 3, defs, 1)
+            if k == "map":
+                for j, kv in enumerate(c["ents"]):
+                    if j != 1:
+                        kv[1] = {"p": 0}
+            else:
+                c["items"][0] = {"p": 0}
+                c["items"][-1] = {"p": 0}
+            out.append(c)
+        return out
     if k == "struct":
         return [base_value(t, defs, 2, 5)]
     raise ValueError(k)
+
+
+def zero_elem(t, defs):
+    """smallest element: zero scalar, empty string/binary/container (non-nil), nil pointer struct"""
+    if t.get("ptr"):
+        return {"p": 0}
+    k = t["k"]
+    if k == "binary":
+        return {"nil": False, "b": []}
+    if k in ("list", "set"):
+        return {"nil": False, "items": []}
+    if k == "map":
+        return {"nil": False, "ents": []}
+    return zero(t, defs)
+
+
+# raw unknown fields (ids 30000..30007 are never declared by a generated struct):
+# i32, string, empty struct, list<i16>, map<i8,bool>, double, bool, nested struct with a string
+UNKNOWN_RAW = [
+    [8, 117, 48, 0, 0, 1, 0],
+    [11, 117, 49, 0, 0, 0, 3, 120, 121, 122],
+    [12, 117, 50, 0],
+    [15, 117, 51, 6, 0, 0, 0, 2, 0, 1, 255, 255],
+    [13, 117, 52, 3, 2, 0, 0, 0, 1, 7, 1],
+    [4, 117, 53, 64, 9, 33, 251, 84, 68, 45, 24],
+    [2, 117, 54, 1],
+    [12, 117, 55, 11, 0, 1, 0, 0, 0, 1, 97, 8, 0, 2, 0, 0, 0, 9, 0],
+]
+
+
+def unknown_bytes(which):
+    out = []
+    for i in which:
+        out += UNKNOWN_RAW[i % len(UNKNOWN_RAW)]
+    return out
 
 
 def struct_variants(s, defs, sizes=CONTAINER_SIZES, strlens=STRLENS, salt=0):
@@ -231,11 +285,21 @@ def struct_variants(s, defs, sizes=CONTAINER_SIZES, strlens=STRLENS, salt=0):
     basev = base_value(t, defs, 3, salt)
     yield "base", basev
     yield "zero", zero_struct(s, defs)
+    zv = zero_struct(s, defs)
+    if defs[s].get("unk"):
+        for which in ([0], [1, 2], [3, 4, 5, 6, 7], list(range(8)) * 3):
+            yield "unk%d" % len(which), {"f": dict(basev["f"]), "unk": unknown_bytes(which)}
+            yield "zunk%d" % len(which), {"f": dict(zv["f"]), "unk": unknown_bytes(which)}
     for f in defs[s]["fields"]:
         for i, v in enumerate(interesting(f["t"], defs, f["req"], sizes, strlens)):
             nv = {"f": dict(basev["f"]), "unk": basev["unk"]}
             nv["f"][f["key"]] = v
             yield "%s=%d" % (f["key"], i), nv
+            if f["t"]["k"] in ("list", "set", "map", "string", "binary") and not f["t"].get("ptr"):
+                # the same value with every other field zero / nil (the field is the last thing written)
+                nz = {"f": dict(zv["f"]), "unk": []}
+                nz["f"][f["key"]] = v
+                yield "z%s=%d" % (f["key"], i), nz
 
 
 # ---- random values ----------------------------------------------------------------------
@@ -282,7 +346,10 @@ def rand_value(t, defs, rng, depth=3, maxn=6):
                                         rand_elem(t["vt"], defs, rng, depth - 1, maxn)] for j in range(n)]}
     if k == "struct":
         d = defs[t["s"]]
-        return {"f": {f["key"]: rand_value(f["t"], defs, rng, depth - 1, maxn) for f in d["fields"]}, "unk": []}
+        unk = []
+        if d.get("unk") and rng.random() < 0.5:
+            unk = unknown_bytes([rng.randrange(8) for _ in range(rng.randrange(1, 4))])
+        return {"f": {f["key"]: rand_value(f["t"], defs, rng, depth - 1, maxn) for f in d["fields"]}, "unk": unk}
     raise ValueError(k)
 
 
@@ -308,6 +375,8 @@ def with_defaults(defs):
 
 def leaf_structs():
     return {
+        "Fix": struct([field(1, "default", T("i32")), field(2, "default", T("i64")), field(3, "default", T("double")),
+                       field(4, "default", T("bool"))]),
         "Leaf": struct([field(1, "default", T("i32")), field(2, "optional", T("string", True))]),
         "LeafReq": struct([field(1, "required", T("i64")), field(2, "default", T("string"))]),
         "LeafUnk": struct([field(1, "default", T("i16")), field(3, "optional", T("binary"))], unk=True),
@@ -316,10 +385,14 @@ def leaf_structs():
 
 KEY_KINDS = ["bool", "i8", "i16", "i32", "i64", "double", "enum", "string", "*struct"]
 VAL_FORMS = ["bool", "i8", "i16", "i32", "i64", "double", "enum", "string", "binary",
-             "struct", "*struct", "list", "set", "map"]
+             "struct", "*struct", "list", "set", "map", "fixstruct", "*fixstruct"]
 
 
 def form_type(form, leaf="Leaf"):
+    if form == "*fixstruct":
+        return ST("Fix", True)
+    if form == "fixstruct":
+        return ST("Fix", False)
     if form == "*struct":
         return ST(leaf, True)
     if form == "struct":
@@ -333,12 +406,30 @@ def form_type(form, leaf="Leaf"):
     return T(form)
 
 
+def private_leaf(defs, owner, form):
+    """a copy of the leaf struct used by nobody else: a struct type reachable only through
+    one container shape (process-wide caches must not be what makes it work)"""
+    if "struct" not in form:
+        return "Leaf"
+    base = "Fix" if "fix" in form else "Leaf"
+    name = "%s_%s" % (base, owner)
+    import copy
+    defs[name] = copy.deepcopy(leaf_structs()[base])
+    return name
+
+
+def form_type2(defs, owner, form):
+    if "struct" in form:
+        return ST(private_leaf(defs, owner, form), form.startswith("*"))
+    return form_type(form)
+
+
 def universe_maps():
     defs = leaf_structs()
     for kk in KEY_KINDS:
         for vf in VAL_FORMS:
             name = "M_%s_%s" % (kk.replace("*", "p"), vf.replace("*", "p"))
-            defs[name] = struct([field(1, "default", M(form_type(kk), form_type(vf))),
+            defs[name] = struct([field(1, "default", M(form_type2(defs, name + "k", kk), form_type2(defs, name + "v", vf))),
                                  field(2, "default", T("i8"))])
     return with_defaults(defs)
 
@@ -348,7 +439,7 @@ def universe_lists():
     for ck, C in (("list", L), ("set", SET)):
         for vf in VAL_FORMS:
             name = "%s_%s" % (ck.capitalize(), vf.replace("*", "p"))
-            defs[name] = struct([field(1, "default", C(form_type(vf))), field(7, "optional", C(form_type(vf)))])
+            defs[name] = struct([field(1, "default", C(form_type2(defs, name, vf))), field(7, "optional", C(form_type2(defs, name, vf)))])
     return with_defaults(defs)
 
 
